@@ -731,38 +731,12 @@ impl<C: BgpConfig + Send> Session<C> {
                 }
             }
             // optional:
-            (S::Connect, E::BgpOpenWithDelayOpenTimerRunning(_open_msg)) => {
-                // The TCP connection has been established but we waited for
-                // the other side to send a BGP OPEN first, which now
-                // happened. 
-
-                debug!("Received OPEN during DelayOpen");
-                todo!();
-
-        //- stops the ConnectRetryTimer (if running) and sets the
-        //  ConnectRetryTimer to zero,
-
-        //- completes the BGP initialization,
-        //- stops and clears the DelayOpenTimer (sets the value to zero),
-
-        //- sends an OPEN message,
-
-        //- sends a KEEPALIVE message,
-
-        //- if the HoldTimer initial value is non-zero,
-
-        //    - starts the KeepaliveTimer with the initial value and
-
-        //    - resets the HoldTimer to the negotiated value,
-
-        //  else, if the HoldTimer initial value is zero,
-
-        //    - resets the KeepaliveTimer and
-
-        //    - resets the HoldTimer value to zero,
-
-        //- and changes its state to OpenConfirm.
-            }
+            // (S::Connect, E::BgpOpenWithDelayOpenTimerRunning(_)):
+            // The TCP connection has been established but we waited for
+            // the other side to send a BGP OPEN first, which now
+            // happened. RFC 4271 prescribes the same actions as in the
+            // Active state: handled by the (S::Connect | S::Active, ..)
+            // arm below.
             (S::Connect, E::BgpHeaderErr | E::BgpOpenMsgErr) => { todo!() }
             (S::Connect, E::NotifMsgVerErr) => { todo!() }
             (S::Connect, 
@@ -951,7 +925,8 @@ impl<C: BgpConfig + Send> Session<C> {
             }
             // optional:
             // XXX D-R-Y with (S::Connect, E::BgpOpen(_)) case
-            (S::Active, E::BgpOpenWithDelayOpenTimerRunning(open_msg)) => {
+            (S::Connect | S::Active,
+                E::BgpOpenWithDelayOpenTimerRunning(open_msg)) => {
                 //- stops the ConnectRetryTimer (if running) and sets the
                 //  ConnectRetryTimer to zero,
                 self.connect_retry_timer.stop_and_reset();
